@@ -225,6 +225,13 @@ def stepLine (st : DState) (line : String) : DState × String :=
       | some (e, c, r) =>
           (st, s!"S{if Pipeline.specMayRelay e c r then 1 else 0} " ++ Pipeline.showResult (Pipeline.handle Pipeline.macPlaceholder e c r))
       | none => (st, "bad-op")
+  | "pipec" :: toks =>
+      -- the same request on a client connection whose upstream connection the host has closed
+      match Tok.run (do let e ← Pipeline.pEnv; let c ← Pipeline.pConn; let r ← Pipeline.pReq; pure (e, c, r)) toks with
+      | some (e, c, r) =>
+          (st, s!"S{if Pipeline.specMayRelay e c r then 1 else 0} " ++
+            Pipeline.showResult (Attribution.afterHostClose (Pipeline.handle Pipeline.macPlaceholder e c r)))
+      | none => (st, "bad-op")
   | ["attr", "new"] => ({ st with attr := { audit := [], conns := [] } }, "ok")
   | ["attr", "record", p, e, ip, port] =>
       match p.toNat?, port.toNat?, Hex.decodeString ip with
